@@ -153,6 +153,47 @@ func main() {
 		}
 	}
 
+	// ---------------------------------------------------------------- table.go:loadBlock
+	{
+		fd := tf.Func("table.loadBlock")
+		calls := tf.Calls(body(fd))
+		vi, ai, gi := -1, -1, -1
+		nv, na := 0, 0
+		for i, c := range calls {
+			switch c {
+			case "b.verifyCheckSum":
+				if vi < 0 {
+					vi = i
+				}
+				nv++
+			case "t.lm.cache.addBlock":
+				if ai < 0 {
+					ai = i
+				}
+				na++
+			case "t.lm.cache.getBlock":
+				gi = i
+			}
+		}
+		shape := vi >= 0 && ai >= 0 && gi >= 0 && nv == 1 && na == 1 && gi < vi && gi < ai
+		// the verification must guard the return: `if err = b.verifyCheckSum(); err != nil { return nil, err }`
+		guard := false
+		if fd != nil {
+			ast.Inspect(fd.Body, func(x ast.Node) bool {
+				if s, ok := x.(*ast.IfStmt); ok && s.Init != nil && tf.Src(s.Init) == "err = b.verifyCheckSum()" &&
+					tf.Src(s.Cond) == "err != nil" && tf.Src(s.Body) == "{ return nil, err }" {
+					guard = true
+				}
+				return true
+			})
+		}
+		val := "false"
+		if vi < ai {
+			val = "true"
+		}
+		o.Set("sst.verifyBeforeCache", "lsm/table.go:loadBlock", val, shape && guard, "true")
+	}
+
 	f := o.Facts
 	lean := fmt.Sprintf(`-- GENERATED by /verif/extract/cmd/sst from the current /repo working tree. Do not edit.
 import NoKVModel.Sst.Model
@@ -162,10 +203,10 @@ open NoKV NoKV.Sst
 
 def sstCfg : SstCfg :=
   { splitOp := .%s, seekFallsThrough := %s, tblSeekOp := .%s, blkFwdOp := .%s, blkRevOp := .%s,
-    searchVsOp := .%s, bloomSameProjection := %s }
+    searchVsOp := .%s, bloomSameProjection := %s, verifyBeforeCache := %s }
 
 end NoKV.Generated.Sst
 `, f["sst.splitOp"], f["sst.seekFallsThrough"], f["sst.tblSeekOp"], f["sst.blkFwdOp"], f["sst.blkRevOp"],
-		f["sst.searchVsOp"], f["sst.bloomSameProjection"])
+		f["sst.searchVsOp"], f["sst.bloomSameProjection"], f["sst.verifyBeforeCache"])
 	o.Write(*jsonOut, *leanOut, lean)
 }
